@@ -118,7 +118,8 @@ Definition redis_lstep (ph : N) (x : input) : N * list reply * list ev :=
 
 (* ---- memcached over TCP (services/memcached.go): bufio reader local; limiter only for UDP ---- *)
 (* tokens: 1 flush_all, 2 stats, 3 "get k", 4 "set k 0 0 3"+payload (one write), 5 "set k 0 0"
-   replies: 1 OK, 2 STAT.., 3 ERROR, 4 STORED; events (1, token) command, (2, payload bytes seen) *)
+   replies: 1 OK, 2 STAT.., 3 ERROR, 4 STORED; events (1, token) command, (2, bytes of the data
+   block kept = the declared length when below 80) *)
 Definition memcached_lstep (ph : N) (x : input) : N * list reply * list ev :=
   match x with
   | Open => if ph =? PH_NONE then (PH_LIVE, [], []) else (ph, [], [])
@@ -127,7 +128,7 @@ Definition memcached_lstep (ph : N) (x : input) : N * list reply * list ev :=
       if negb (ph =? PH_LIVE) then (ph, [], [])
       else if t =? 1 then (ph, [1], [mkEv 1 1])
       else if t =? 2 then (ph, [2], [mkEv 1 2])
-      else if t =? 4 then (ph, [4], [mkEv 1 4; mkEv 2 5])
+      else if t =? 4 then (ph, [4], [mkEv 1 4; mkEv 2 3])
       else if t =? 5 then (PH_DONE, [CLOSED], [mkEv 1 5])   (* "Invalid number of arguments": Handle returns *)
       else (ph, [3], [mkEv 1 t])
   end.
